@@ -417,9 +417,13 @@ class FATDirectoryEntry:
             return
 
         clus = self.get_cluster()
-        self.__dirs = self.__fs.parse_dir_entries_in_cluster_chain(clus)
-        for dir_entry in self.__dirs:
+        # Link the freshly parsed entries before publishing them: another
+        # thread may populate this directory at the same time, and must
+        # never get to see (or re-link) a half-initialized list
+        dirs = self.__fs.parse_dir_entries_in_cluster_chain(clus)
+        for dir_entry in dirs:
             dir_entry._add_parent(self)
+        self.__dirs = dirs
         self.__lazy_load = False
 
     def _get_entries_raw(self):
